@@ -381,11 +381,8 @@ func (w *Writer) wrapIfLeaf(node *nodeInfo) *dictInfo {
 // Collapse reduces the tail to (at most) one node.
 func (w *Writer) collapse() {
 	for len(w.tail) > 1 && w.err == nil {
-		start := max(len(w.tail)-maxDegree, 0)
-		for start > 0 && w.tail[start-1].depth == w.tail[start].depth {
-			start++
-		}
-		w.tail = w.mergeNodes(w.tail, start, len(w.tail))
+		start, end := tailGroup(w.tail)
+		w.tail = w.mergeNodes(w.tail, start, end)
 	}
 }
 
